@@ -14,6 +14,7 @@ import (
 
 type dstmt struct {
 	kind string
+	n    int // defer: number of consecutive defer statements (0 = 1)
 	a, b []dstmt
 }
 
@@ -64,7 +65,7 @@ func bodies(n, depth, maxDepth int, inLoop bool, memo map[string][][]dstmt) [][]
 func stmts(k, depth, maxDepth int, inLoop bool, memo map[string][][]dstmt) []dstmt {
 	var out []dstmt
 	if k == 1 {
-		out = append(out, dstmt{kind: "defer"}, dstmt{kind: "return"}, dstmt{kind: "panic"}, dstmt{kind: "goto"})
+		out = append(out, dstmt{kind: "defer"}, dstmt{kind: "defer", n: 3}, dstmt{kind: "return"}, dstmt{kind: "panic"}, dstmt{kind: "goto"})
 		if inLoop {
 			out = append(out, dstmt{kind: "break"}, dstmt{kind: "continue"})
 		}
@@ -143,9 +144,19 @@ func (r *drender) body(b []dstmt, ind int, labelAt int) {
 		}
 		switch s.kind {
 		case "defer":
-			r.ndef++
-			fmt.Fprintf(&r.sb, "%sdefer rt.D(%d)\n", tab, r.ndef)
-			r.sig.WriteString("d;")
+			k := s.n
+			if k == 0 {
+				k = 1
+			}
+			for j := 0; j < k; j++ {
+				r.ndef++
+				fmt.Fprintf(&r.sb, "%sdefer rt.D(%d)\n", tab, r.ndef)
+			}
+			if k == 1 {
+				r.sig.WriteString("d;")
+			} else {
+				fmt.Fprintf(&r.sig, "d%d;", k)
+			}
 		case "return":
 			fmt.Fprintf(&r.sb, "%sreturn\n", tab)
 			r.sig.WriteString("r;")
